@@ -275,6 +275,26 @@ def run_C08(chk):
                            {'op': l, 'zone': z.name, 'implementation': o, 'specification': want}, sig='format value')
             else:
                 good += 1
+    # the public format<D>() template: every digit of a time_point finer than a nanosecond reaches the text
+    from .common import correspond
+    from .props_split import subapi_want
+    sl = []; sm = []
+    for D in (10**15, 10**9, 10**6, 3):
+        nd = len(str(D)) - 1
+        cs_ = [1, -1, D - 1, -(D - 1), 123456789012345 % D, D + 1] + [rng.randrange(-3 * D, 3 * D) for _ in range(30)]
+        for k in range(nd):
+            for _ in range(3): cs_.append(rng.randrange(-3, 4) * D + rng.choice([-1, 1]) * rng.randrange(1, 1000) * 10**k)
+        for c in cs_:
+            if I64MIN <= c <= I64MAX: sl.append('subapi 1 %d %d i64' % (D, c)); sm.append((D, c))
+    smo, sio, smism = correspond(chk, sl, exe, 'format-template')
+    for i, (D, c) in enumerate(sm):
+        want = subapi_want(1, D, c)
+        if want is not None and sio[i] != want:
+            chk.report('format("%%Y-%%m-%%d %%H:%%M:%%E*S|%%E15S|%%E12f|%%E3S|%%s") of a time_point of %d ticks of 1/%d s gives %r; the documented rendering is %r' % (c, D, unhex(sio[i].split(' | ')[-1]) if ' | ' in sio[i] else sio[i], unhex(want.split(' | ')[-1])),
+                       {'op': sl[i], 'implementation': sio[i], 'model': smo[i], 'specification': want}, sig='format template')
+        else: good += 1
+    for i in smism[:10]:
+        chk.broken.append('correspondence: op `%s` model=`%s` implementation=`%s`' % (sl[i], smo[i], sio[i]))
     chk.cov['distinct_nontrivial'] = good
     chk.cov['rule'] = ('per zone (shipped, synthetic sub-minute/>=24h-rule, fixed offsets incl. +-24h and sub-minute): format strings that are sequences over the library-defined specifiers, other strftime specifiers and literal text '
                        '(70%), and malformed strings (dangling %, %E, %E*, %:, %::, digit runs of 1-2000, embedded NUL, bytes >= 0x80; 30%) x instants over all of int64 x femtoseconds with 0-15 significant digits; '
@@ -290,7 +310,9 @@ def run_C08(chk):
 DATE_FORMS = [['%Y', '-', '%m', '-', '%d'], ['%d', '/', '%m', '/', '%Y'], ['%Y', ' ', '%b', ' ', '%d'], ['%a', ' ', '%Y', '-', '%m', '-', '%d'],
               ['%Y', ' ', '%U', ' ', '%w'], ['%Y', ' ', '%W', ' ', '%u'], ['%Y', '-', '%m', '-', '%e'], ['%E4Y', '-', '%m', '-', '%d'], ['%Y', ' ', '%B', ' ', '%d', ' ', '%A'],
               ['%m', '/', '%d', ' ', '%Y'], ['%Y', '.', '%U', '.', '%a']]
-TIME_FORMS = [['%H', ':', '%M', ':', '%E*S'], ['%H', ':', '%M', ':', '%S', '.', '%E*f'], ['%H', '%M', ' ', '%E15S'], ['%I', ':', '%M', ':', '%E*S', ' ', '%p'], ['%H', 'h', '%M', 'm', '%S', 's', '%E15f']]
+TIME_FORMS = [['%H', ':', '%M', ':', '%E*S'], ['%H', ':', '%M', ':', '%S', '.', '%E*f'], ['%H', '%M', ' ', '%E15S'], ['%I', ':', '%M', ':', '%E*S', ' ', '%p'], ['%H', 'h', '%M', 'm', '%S', 's', '%E15f'],
+              ['%H', ':', '%M', ':', '%E18S'], ['%H', '%M', ' ', '%E16S'], ['%H', ':', '%M', ':', '%S', ',', '%E17f'], ['%H', ':', '%M', ':', '%E25S'],
+              ['%p', ' ', '%I', ':', '%M', ':', '%E*S'], ['%p', '%I', '%M', ' ', '%E15S']]
 OFF_FORMS = [['%E*z'], ['%::z']]
 SEPS = ['T', ' ', '%ET', ' at ']
 
@@ -580,6 +602,29 @@ def run_C09(chk):
             if o != want:
                 chk.report('parse(%r, %r) in %s = `%s`; the parsed fields denote `%s`' % (fmt_b, text_b, zn.name, o, want), {'op': l, 'zone': zn.name, 'implementation': o, 'specification': want}, sig='parse value')
             else: good += 1
+    # parse() into a time_point coarser than a second (the public template): the floor of the instant the text denotes,
+    # or failure when that does not fit — at the ends of the second range, around the epoch, and a sample
+    from .common import correspond
+    cl = []; cm = []
+    for (Num, rep, lo, hi) in ((60, 'i64', I64MIN, I64MAX), (3600, 'i64', I64MIN, I64MAX), (86400, 'i64', I64MIN, I64MAX), (60, 'i32', -2**31, 2**31 - 1), (1, 'i64', I64MIN, I64MAX)):
+        secs = [I64MIN, I64MIN + 1, I64MIN + Num - 2, I64MIN + Num - 1, I64MIN + Num, I64MAX, I64MAX - 1, I64MAX - Num + 1, I64MAX - Num,
+                -1, -Num + 1, -Num, -Num - 1, 0, 1, Num - 1, Num] + [rng.randrange(-3 * Num, 3 * Num + 1) for _ in range(20)] + \
+               [rng.randrange(I64MIN, I64MIN + 2 * Num) for _ in range(6)] + [rng.randrange(I64MAX - 2 * Num, I64MAX + 1) for _ in range(6)]
+        for sec in secs:
+            if not (I64MIN <= sec <= I64MAX): continue
+            # -292277022657-01-27 08:29:52 … 292277026596-12-04 15:30:07 are the civil seconds (UTC) of the int64 limits
+            txt = '%d-%02d-%02d %02d:%02d:%02d' % C.civil_of_sec(sec)
+            cl.append('subparse %d %d %d %s %s' % (Num, lo, hi, rep, txt.encode().hex())); cm.append((Num, lo, hi, sec, txt))
+    cmo, cio, cmism = correspond(chk, cl, exe, 'coarse-target')
+    for i, (Num, lo, hi, sec, txt) in enumerate(cm):
+        q = sec // Num
+        want = 'ok %d' % q if lo <= q <= hi else 'false'
+        if cio[i] != want:
+            chk.report('parse("%%Y-%%m-%%d %%H:%%M:%%S", "%s", utc) into a time_point of %d-second ticks = `%s`; the text denotes the instant %d, whose tick is `%s`' % (txt, Num, cio[i], sec, want),
+                       {'op': cl[i], 'implementation': cio[i], 'model': cmo[i], 'specification': want}, sig='parse coarse target %s' % site_sig(cio[i]))
+        else: good += 1
+    for i in cmism[:10]:
+        chk.broken.append('correspondence: op `%s` model=`%s` implementation=`%s`' % (cl[i], cmo[i], cio[i]))
     chk.cov['distinct_nontrivial'] = good
     chk.cov['rule'] = ('inputs built from chosen field values (random valid dates, civil seconds within 2 h of a transition of the zone so that skipped/repeated times occur) in five field layouts, with or without a UTC offset in five spellings; '
                        '30% with one field pushed just outside its range or a non-existent day (must fail), 15% with one character inserted/deleted/replaced or harmless whitespace, :60 seconds, %s and %Y at the int64 limits and beyond '
